@@ -34,6 +34,7 @@ def make_config(rng, profile, tier):
     cfg['threads'] = rng.choice([1, 2, 0])
     cfg['ident'] = rng.choice([1e-5, 1e-5, 10.0, 0.0])      # buggify: flips the "not identified" branch of the reports
     cfg['only_robust'] = rng.random() < 0.5
+    cfg['max_iter'] = rng.choice([60, 60, 60, 1])
     # database names: anything the file system accepts
     cfg['dbname'] = rng.choice(['d', 'data set', 'swiss', 'survey:2020', 'what?', 'a*b', 'x|y', 'q<1>'])
     return cfg
@@ -257,7 +258,8 @@ class Session:
         p.set_value('generate_html', html)
         p.set_value('generate_pickle', pick)
         p.set_value('number_of_threads', self.cfg['threads'] or 0)
-        p.set_value('max_iterations', 60)
+        # buggify: some estimations are stopped before they converge (their record says so, also after a reload)
+        p.set_value('max_iterations', self.cfg.get('max_iter', 60))
         p.set_value('identification_threshold', self.cfg.get('ident', 1e-5))
         p.set_value('only_robust_stats', self.cfg.get('only_robust', True))
         if boot:
@@ -291,6 +293,9 @@ class Session:
     def _snap_reports(self, r):
         out = {}
         out['betas'] = {k: fhex(v) for k, v in r.get_beta_values().items()}
+        out['converged'] = bool(r.algorithm_has_converged())
+        if not out['converged']:
+            self.ctx.probe('record of an estimation that did not converge')
         gs = r.get_general_statistics()
         out['stats'] = {k: (fhex(v[0]) if isinstance(v[0], (int, float)) or hasattr(v[0], 'hex') else str(v[0]), v[1])
                         for k, v in gs.items()}
